@@ -46,10 +46,10 @@ PROPS["C04"] = dict(
              quick=dict(MaxLen=4, MaxDepth=3), thorough=dict(MaxLen=5, MaxDepth=3)),
         dict(name="MC_Striped_tiles_C2", module="MC_Striped", view="View", invariants=STRIPED_INV, actions=STRIPED_ACT,
              constants=dict(C=2, K=3, Variant='"tiles"', T=2, Emit=False, MaxWrap=4),
-             quick=dict(MaxLen=5, MaxDepth=3), thorough=dict(MaxLen=6, MaxDepth=3)),
+             quick=dict(MaxLen=5, MaxDepth=3), thorough=dict(MaxLen=6, MaxDepth=2)),
         dict(name="MC_Striped_tiles_C3", module="MC_Striped", view="View", invariants=STRIPED_INV, actions=STRIPED_ACT,
              constants=dict(C=3, K=3, Variant='"tiles"', T=2, Emit=False, MaxWrap=3),
-             quick=dict(MaxLen=5, MaxDepth=2), thorough=dict(MaxLen=6, MaxDepth=3)),
+             quick=dict(MaxLen=5, MaxDepth=2), thorough=dict(MaxLen=6, MaxDepth=2)),
         dict(name="MC_Striped_replay_C1", module="MC_Striped", view="View", invariants=STRIPED_INV, emit=True,
              constants=dict(C=1, K=3, Variant='"generic"', T=1, Emit=True, MaxWrap=3),
              quick=dict(MaxLen=3, MaxDepth=3), thorough=dict(MaxLen=4, MaxDepth=4)),
@@ -451,8 +451,8 @@ PROPS["C18"] = dict(mc=_py_mc(), record=True, trace="Trace_Py", shards=12, packa
                "Count / Weight / ScoringMatrix and the survival function, for all indices -len-2..len+1 and memoryview "
                "tolist(), sizes incl. empty objects and widths whose stride differs from the column count, are validated by TLC.",
     level_note="Both readings of the ScoringMatrix buffer ((positions, symbols) or (symbols, positions)) are accepted when "
-               "shape, strides and elements agree; (C, R + wrap) is accepted for striped sequences if the extra rows are the "
-               "look-ahead rows. A hard crash of the interpreter would be reported as a tool error. Trusted: TLC, CPython's "
+               "shape, strides and elements agree; a striped sequence must keep the shape (C, R) after look-ahead rows were "
+               "added by calculate / scan ('no padding visible'). A hard crash of the interpreter would be reported as a tool error. Trusted: TLC, CPython's "
                "memoryview.",
     rule="impl->spec: one event per (object, all probed indices) or per view; distinct_nontrivial = distinct events.",
     assumptions=["CPython's memoryview.tolist() follows shape / strides / format faithfully"])
